@@ -167,6 +167,15 @@ def make_pool():
   def _():
     return fdl.Config(fc, Color.RED, q=b'bytes', r=[1.5, None, True, 'str', fb, Cls])
 
+  @add('all-leaf-arguments-with-sets')
+  def _():
+    # no argument is a daglish-traversable container, but two of them are mutable containers
+    return fdl.Config(fc, {1, 2}, q='text', r=frozenset({3}))
+
+  @add('nested-all-leaf-with-sets')
+  def _():
+    return fdl.Config(fc, fdl.Config(fb, {3, 4}), q=[fdl.Partial(fb, y={'a'})], r=fdl.ArgFactory(fb, {5}))
+
   return P
 
 
